@@ -593,7 +593,7 @@ int main(int argc, char** argv)
    // configurations: every assignment of programs to 2 threads (both shapes), and to 3 threads (isolated shape)
    std::vector<std::pair<Config, int>> work;       // (configuration, preemption bound)
    for (int shape = 0; shape < 2; ++shape)
-      for (int a = 0; a < NPROG; ++a) for (int b = 0; b < NPROG; ++b) work.push_back({ Config{ shape, { a, b } }, deep ? 3 : 2 });
+      for (int a = 0; a < NPROG; ++a) for (int b = 0; b < NPROG; ++b) work.push_back({ Config{ shape, { a, b } }, deep and shape == 0 ? 3 : 2 });
    for (int a = 0; a < NPROG; ++a) for (int b = 0; b < NPROG; ++b) for (int c = 0; c < NPROG; ++c) if (deep or (a <= b and b <= c)) work.push_back({ Config{ 0, { a, b, c } }, deep ? 2 : 1 });
    long long max_points = 0;
    for (std::size_t i = 0; i < work.size(); ++i) {
@@ -607,7 +607,7 @@ int main(int argc, char** argv)
    (void) max_points;
    for (auto& o : outcomes) rep.member("outcomes", o);
    if (opt.shard == 0) {
-      rep.info("bounds", vf::JObj{}.str("two_threads", deep ? "all 2x25 program assignments, <= 3 preemptions" : "all 2x25 program assignments, <= 2 preemptions")
+      rep.info("bounds", vf::JObj{}.str("two_threads", deep ? "all 2x25 program assignments, <= 3 preemptions (isolated shape) / <= 2 (lifecycle shape)" : "all 2x25 program assignments, <= 2 preemptions")
                             .str("three_threads", deep ? "all 125 assignments, <= 2 preemptions" : "35 assignments up to permutation, <= 1 preemption")
                             .str("scheduling_points", "operator new, operator delete, std::_Hash_bytes, every stream write, operation boundaries, thread start/end, rendezvous").done());
       rep.sample(vf::JObj{}.str("configuration", "isolated:declare+print|regions+print").str("schedule", "at point 37 run alternative 1, at point 112 run alternative 1").str("checked", "each thread's trace == its sequential trace; node sets disjoint up to constants; per-thread allocation balance").done());
